@@ -13,6 +13,7 @@ import (
 )
 
 type Clause struct {
+	Target string // callsite clauses: name of the callee the clause applies to ("" = the function itself)
 	Text string
 	Expr ast.Expr
 	Idx  int // ordinal within its kind
@@ -42,6 +43,8 @@ type Contract struct {
 	Ensures   []*Clause
 	Exsures   []*Clause
 	Preserves []*Clause
+	Keeps     []string  // Go type expressions: heap components of these map/slice types are not modified even under "modifies *"
+	Callsite  []*Clause // must hold (in the caller's terms) at every recursive call of the function to itself
 	Implements string // key suffix of a function-type contract, e.g. "type:instFunc"
 	Modifies  []*Clause
 	ModAll    bool
@@ -56,7 +59,7 @@ type Contract struct {
 	Lemma     bool
 }
 
-var kwRe = regexp.MustCompile(`^(define|implements|preserves|func|requires|ensures|exsures|modifies|nopanic|assumed|inline|loop|decreases|params|lemma)\b`)
+var kwRe = regexp.MustCompile(`^(define|implements|preserves|keeps|callsite|func|requires|ensures|exsures|modifies|nopanic|assumed|inline|loop|decreases|params|lemma)\b`)
 
 // parseContracts reads all zz_verif_contracts.go files below repo.
 func parseContracts(repo string) (map[string]*Contract, []string, error) {
@@ -120,12 +123,19 @@ func parseContractFile(path, relpkg string, out map[string]*Contract) error {
 		p := pend
 		pend = nil
 		text := strings.TrimSpace(p.text)
+		target := ""
+		if p.kind == "callsite" && strings.HasPrefix(text, "@") {
+			fs := strings.SplitN(text, " ", 2)
+			if len(fs) == 2 {
+				target, text = fs[0][1:], strings.TrimSpace(fs[1])
+			}
+		}
 		mk := func() (*Clause, error) {
 			e, err := parseContractExpr(text)
 			if err != nil {
 				return nil, fmt.Errorf("%s:%d: %v in %q", path, p.line, err, text)
 			}
-			return &Clause{Text: text, Expr: e, Line: fmt.Sprintf("%s:%d", path, p.line)}, nil
+			return &Clause{Text: text, Expr: e, Target: target, Line: fmt.Sprintf("%s:%d", path, p.line)}, nil
 		}
 		switch p.kind {
 		case "define":
@@ -154,7 +164,7 @@ func parseContractFile(path, relpkg string, out map[string]*Contract) error {
 			}
 			macros[relpkg+"."+m.Name] = m
 			return nil
-		case "requires", "ensures", "exsures", "modifies", "decreases", "preserves":
+		case "requires", "ensures", "exsures", "modifies", "decreases", "preserves", "callsite":
 			if p.kind == "modifies" && text == "*" {
 				cur.ModAll = true
 				return nil
@@ -199,6 +209,9 @@ func parseContractFile(path, relpkg string, out map[string]*Contract) error {
 			case "preserves":
 				c.Idx = len(cur.Preserves)
 				cur.Preserves = append(cur.Preserves, c)
+			case "callsite":
+				c.Idx = len(cur.Callsite)
+				cur.Callsite = append(cur.Callsite, c)
 			case "modifies":
 				c.Idx = len(cur.Modifies)
 				cur.Modifies = append(cur.Modifies, c)
@@ -262,6 +275,8 @@ func parseContractFile(path, relpkg string, out map[string]*Contract) error {
 			out[key] = cur
 		case "implements":
 			cur.Implements = rest
+		case "keeps":
+			cur.Keeps = append(cur.Keeps, rest)
 		case "nopanic":
 			cur.NoPanic = true
 		case "assumed":
